@@ -402,6 +402,34 @@ func GenSelector(info FnInfo, ids []uint) any {
 	return sel.Interface()
 }
 
+// GenSelectorWide fills, besides the identifier, every other scalar member the selectors type
+// has (members that do not belong to the identifier: scopes, types, ... and members whose
+// namesake in the item is a list).
+//
+//go:norace
+func (w *World) GenSelectorWide(info FnInfo, ids []uint) any {
+	fi := filterTable[info.Fn]
+	if fi.SelType == nil || info.ItemType == nil {
+		return nil
+	}
+	var sel reflect.Value
+	if s := GenSelector(info, ids); s != nil {
+		sel = reflect.ValueOf(s)
+	} else {
+		sel = reflect.New(fi.SelType)
+	}
+	for i := 0; i < fi.SelType.NumField(); i++ {
+		f := sel.Elem().Field(i)
+		if f.Kind() != reflect.Ptr || !f.IsNil() || !scalarKind(f.Type().Elem().Kind()) {
+			continue
+		}
+		p := reflect.New(f.Type().Elem())
+		w.setScalarValue(p.Elem())
+		f.Set(p)
+	}
+	return sel.Interface()
+}
+
 // SelectorCoversKeys reports whether the selectors type has a field for every key field of the
 // item (only then does a generated selector name a full identifier).
 //
